@@ -105,7 +105,7 @@ def persistStep (st : PersistSt) (l : String) (ws : List String) : Option (List 
            "~ same-as-original " ++ splitVerdict true (sameAsOriginal orig r)], { st with b := { st.b with s := r.st } })
   | "pmemocheck" :: nv :: exc :: t :: rest =>
     match nv.toNat?, parseTable t with
-    | some nv, some ns => some ([l, s!"= audit {memoCheck nv (exc == "1") ns rest}"], st)
+    | some nv, some ns => some ([l, s!"= audit {MemoCheck.verdict nv (exc == "1") ns rest (fun _ => memoCheck nv (exc == "1") ns rest)}"], st)
     | _, _ => some ([l, "= bad-request"], st)
   | ["pfinish"] =>
     some ([l, s!"= {dumpTable st.b.s.nodes}", "~ " ++ showNats "," st.b.tts.toList], st)
